@@ -29,19 +29,21 @@ Enabled(name, eff) ==
 (* ---------------------------------------------------------------- the placement lattice of one generator *)
 TagA == <<"gengo", "a">>
 TagAB == <<"gengo", "a", "b">>          \* a sub-tag of generator a AND the decisive tag of generator a:b
+TagABX == <<"gengo", "ab", "x">>        \* a sub-tag of generator ab: says nothing about a or a:b
 Placements == [none  |-> <<>>,
                bare  |-> << <<TagA, "">> >>,
                false |-> << <<TagA, "false">> >>,
                true  |-> << <<TagA, "true">> >>,
                sub   |-> << <<TagAB, "">> >>,
-               both  |-> << <<TagA, "false">>, <<TagAB, "">> >>]
-PlacementNames == {"none", "bare", "false", "true", "sub", "both"}
+               both  |-> << <<TagA, "false">>, <<TagAB, "">> >>,
+               subab |-> << <<TagABX, "">> >>]
+PlacementNames == {"none", "bare", "false", "true", "sub", "both", "subab"}
 
 PkgKinds == <<"defined", "generic", "alias_local", "alias_foreign">>      \* package-level declarations
-(* 24 package-level declarations: every declaration-level placement x kind, named D01..D24 so that name order = index order *)
-PlacementSeq == <<"none", "bare", "false", "true", "sub", "both">>
+(* 28 package-level declarations: every declaration-level placement x kind, named D01..D28 so that name order = index order *)
+PlacementSeq == <<"none", "bare", "false", "true", "sub", "both", "subab">>
 DeclName(i) == IF i < 10 THEN "D0" \o ToString(i) ELSE "D" \o ToString(i)
-Decls == [i \in 1..24 |-> [name |-> DeclName(i), kind |-> PkgKinds[((i - 1) % 4) + 1], place |-> PlacementSeq[((i - 1) \div 4) + 1]]]
+Decls == [i \in 1..28 |-> [name |-> DeclName(i), kind |-> PkgKinds[((i - 1) % 4) + 1], place |-> PlacementSeq[((i - 1) \div 4) + 1]]]
 
 GenNames == [a |-> <<"a">>, ab |-> <<"ab">>, acb |-> <<"a", "b">>]
 GenSets == { <<"a">>, <<"a", "ab">>, <<"acb", "a">>, <<"ab", "acb">> }       \* generators of one run, in registration order
@@ -74,7 +76,9 @@ DesignPrecedence ==
         /\ (d \in {"none", "sub"} /\ pp \in {"bare", "true"}) => Enabled(<<"a">>, eff)
 (* a generator whose name merely starts with "a" is never enabled by tags of a *)
 DesignNoPrefixConfusion ==
-    \A d \in PlacementNames : ~Enabled(<<"ab">>, Effective(Placements[gp], Placements[pp], Placements[d]))
+    \A d \in PlacementNames : LET eff == Effective(Placements[gp], Placements[pp], Placements[d]) IN
+        /\ (Enabled(<<"ab">>, eff) <=> "subab" \in {gp, pp, d})
+        /\ (gp # "subab" /\ pp # "subab" /\ d = "subab" => (Enabled(<<"a">>, eff) <=> Enabled(<<"a">>, Effective(Placements[gp], Placements[pp], <<>>))))
 
 EmitCase == PrintT(<<"CASE", ToJson([fam |-> "dispatch",
                 case |-> [gp |-> gp, pp |-> pp, gens |-> gens, globals |-> Placements[gp], pkgtags |-> Placements[pp],
